@@ -1,6 +1,7 @@
 #!/bin/bash
 # usage: mut.sh <file rel> <sed expr> <dev.py args...>   -- apply a sed mutation in the scratch worktree, run dev.py, revert
 f=$1; e=$2; shift 2
-cd /tmp/wt/mut && git checkout -q -- . && sed -i "$e" "$f" && git diff --stat | tail -1
-cd /verif && SIMPROCESD_ROOT=/tmp/wt/mut PYTHONPATH=/verif timeout 600 python3-vt dev.py "$@" 2>&1 | grep -v "^  ok"
-cd /tmp/wt/mut && git checkout -q -- .
+WT=${MUT_WT:-/tmp/wt/mut}
+cd $WT && git checkout -q -- . && sed -i "$e" "$f" && git diff --stat | tail -1
+cd /verif && SIMPROCESD_ROOT=$WT PYTHONPATH=/verif timeout 600 python3-vt dev.py "$@" 2>&1 | grep -v "^  ok"
+cd $WT && git checkout -q -- .
